@@ -513,6 +513,13 @@ pub fn scenarios(tier: Tier, seed: u64) -> Vec<Scn> {
             }
         }
     }
+    // a long idle timeout beside a stop flag: how soon the flag is honoured must not depend on
+    // the idle period (with 1-2 s the difference drowns in the slack for a loaded machine)
+    for (k, hist) in [Hist::NoConn, Hist::LongLived].into_iter().enumerate() {
+        for _ in 0..tier.pick(1, 4) {
+            v.push(Scn { idle: 9, flag: FlagPlan::During, pool: pools[1 + k], hist, jitter: rng.below(100) as u64 });
+        }
+    }
     v
 }
 
